@@ -228,7 +228,7 @@ def _entry_guards(c: Ctx, f: Func, depth: int = 0) -> frozenset:
         return cache[f]
     cache[f] = frozenset()
     sites = c.cg.callers.get(f, [])
-    if depth > 2 or not sites or not f.name.startswith("_") or any(cs.kind not in ("direct", "method") for cs in sites):
+    if depth > 2 or not sites or not c.internal_helper(f) or any(cs.kind not in ("direct", "method") for cs in sites):
         return frozenset()
     params = [a.arg for a in f.node.args.posonlyargs + f.node.args.args + f.node.args.kwonlyargs]
     acc: set[str] | None = None
